@@ -411,7 +411,8 @@ def check_C07_run(H):
     if H.stepcap is not None:
         return [V('C07', 'does_not_terminate', 'main_loop', H.stepcap)]
     if H.timeout:
-        return [V('C07', 'does_not_terminate', 'wall_clock', 'no return within the wall-clock guard')]
+        return out      # wall-clock guard: a harness matter (exit 2), never a verdict - every loop in dfols is bounded except the
+        #                 main loop, which the deterministic step cap bounds
     if H.exc is not None:
         if H.injected is not None and H.exc is H.injected:
             return out
@@ -449,7 +450,7 @@ def check_C08(H):
     if H.stepcap is not None:
         return [V('C08', 'does_not_terminate', 'main_loop', '%s after %s at evaluation %s' % (H.stepcap, kind, first_bad.k if first_bad else '?'))]
     if H.timeout:
-        return [V('C08', 'does_not_terminate', 'wall_clock', 'no return within the wall-clock guard')]
+        return out
     raised_call = next((c for c in H.calls if c.raised), None)
     if raised_call is not None:
         if H.exc is None:
@@ -461,8 +462,9 @@ def check_C08(H):
         return out
     if H.exc is not None:
         nan_delivered = any(c.reply is not None and np.any(np.isnan(c.reply)) for c in H.calls)
-        if isinstance(H.exc, np.linalg.LinAlgError) and bool(user_param(H, 'interpolation.throw_error_on_nans', False)) and nan_delivered:
-            return out
+        bad_delivered = any(c.reply is not None and not np.all(np.isfinite(c.reply)) for c in H.calls)
+        if isinstance(H.exc, np.linalg.LinAlgError) and bool(user_param(H, 'interpolation.throw_error_on_nans', False)) and (nan_delivered or bad_delivered):
+            return out      # documented opt-in (inf - inf inside the model is NaN too)
         return [V('C08', 'raises', H.exc_site, '%s: %s (first bad value: %s at evaluation %s, %s)' % (type(H.exc).__name__, str(H.exc)[:80], kind, first_bad.k if first_bad else '?', site))]
     if not has_solution(H):
         return [V('C08', 'no_solution', 'solve', 'no solution object after a faulted run: %r' % (getattr(H.soln, 'msg', None),))]
@@ -483,7 +485,16 @@ def check_C08(H):
             out.append(V('C08', 'x_never_evaluated', site, 'soln.x matches no recorded evaluation point'))
     # (4) a bad value never displaces a finite best point found earlier
     if first_bad is not None:
-        before = [(c, Fvalue(H, c.reply, c.x)) for c in H.calls if c.k < first_bad.k and c.reply is not None]
+        # "evaluations before the fault": completed points (all samples in, averaged) other than the point being sampled when the
+        # fault arrived - with averaging a finite first sample of the faulted point does not make that point's value finite
+        pts = point_table(H)
+        bad_pt = first_bad.ev[1] if first_bad.ev else None
+        before = []
+        for j, cs in pts.items():
+            if j == bad_pt or any(c.k >= first_bad.k for c in cs) or any(c.reply is None for c in cs):
+                continue
+            with np.errstate(all='ignore'):
+                before.append((cs[0], Fvalue(H, np.mean(np.array([c.reply for c in cs]), axis=0), cs[0].x)))
         finb = [(c, f) for c, f in before if math.isfinite(f)]
         obj = float(s.obj)
         if finb:
@@ -495,7 +506,7 @@ def check_C08(H):
                     out.append(V('C08', 'finite_best_displaced', site, 'soln.obj=%r > best earlier finite F=%r (evaluation %d) after %s at evaluation %d' % (obj, fb, cb.k, kind, first_bad.k)))
     # (5) success never with non-finite objective
     if s.flag == 0 and not math.isfinite(float(s.obj)):
-        out.append(V('C08', 'success_with_nonfinite_obj', site, 'flag 0 (%s) with obj=%r' % (s.msg, float(s.obj))))
+        out.append(V('C08', 'success_with_nonfinite_obj' + _all_nonfinite_suffix(H), site, 'flag 0 (%s) with obj=%r' % (s.msg, float(s.obj))))
     return out
 
 
@@ -555,8 +566,19 @@ def check_C10(H):
         if int(s.nruns) < mu:
             out.append(V('C10', 'too_few_runs_for_max_restarts', site, 'nruns=%d < max_unsuccessful_restarts=%d' % (int(s.nruns), mu)))
     if s.flag == 0 and not math.isfinite(obj):
-        out.append(V('C10', 'success_with_nonfinite_obj', site, 'flag 0 with obj=%r' % obj))
+        out.append(V('C10', 'success_with_nonfinite_obj' + _all_nonfinite_suffix(H), site, 'flag 0 with obj=%r' % obj))
     return out
+
+
+def _all_nonfinite_suffix(H):
+    """':no_finite_value' when the objective was non-finite at every evaluation (nothing finite could be returned)."""
+    for j, cs in point_table(H).items():
+        reps = [c.reply for c in cs if c.reply is not None]
+        if reps:
+            with np.errstate(all='ignore'):
+                if math.isfinite(Fvalue(H, np.mean(np.array(reps), axis=0), cs[0].x)):
+                    return ''
+    return ':no_finite_value'
 
 
 # ---------------------------------------------------------------------------------------------------------------
@@ -898,3 +920,120 @@ ORACLES = {
     'C01': check_C01, 'C02': check_C02, 'C03': check_C03, 'C04': check_C04, 'C07': check_C07_run, 'C08': check_C08,
     'C10': check_C10, 'C11': check_C11, 'C18': check_C18, 'C19': check_C19_caller, 'C20': check_C20,
 }
+
+
+# ---------------------------------------------------------------------------------------------------------------
+# C09 convex constraints at every evaluation (needs probe 'dyk')
+# ---------------------------------------------------------------------------------------------------------------
+
+def check_C09(H):
+    out = []
+    sets = H.scn.get('sets') or []
+    if not sets or not H.calls:
+        return out
+    lo, hi = caller_bounds(H)
+    p = len(sets) + 1
+    by_out = getattr(H, 'dyk_by_out', {})
+    first = H.calls[0]
+    x0 = np.array(H.scn['x0'], dtype=float)
+    feasible = all(W.set_distance(s, x0) == 0.0 for s in sets) and (lo is None or not np.any(x0 < lo)) and (hi is None or not np.any(x0 > hi))
+    sol = H.dyk_solver_out[0] if H.dyk_solver_out else None
+    if feasible:
+        if not np.all(np.abs(first.x - x0) <= 1e-12 * max(1.0, float(np.max(np.abs(x0))))):
+            out.append(V('C09', 'feasible_x0_moved', 'x0', 'first evaluation differs from the feasible x0 by %.3e' % float(np.max(np.abs(first.x - x0)))))
+    else:
+        if sol is None:
+            out.append(V('C09', 'infeasible_x0_not_projected', 'x0', 'no projection of x0 was computed'))
+        elif first.x.tobytes() != sol.xout.tobytes():
+            out.append(V('C09', 'infeasible_x0_not_projected', 'x0', 'first evaluation is not the projection of the infeasible x0 (differs by %.3e)' % float(np.max(np.abs(first.x - sol.xout)))))
+    stats = H.insitu_counts
+    for c in H.calls:
+        x = c.x
+        if c.k == 1 or x.tobytes() == first.x.tobytes():
+            d = sol if (sol is not None and x.tobytes() == sol.xout.tobytes()) else by_out.get(x.tobytes())
+            if d is None:
+                continue
+        else:
+            d = by_out.get(x.tobytes())
+            if d is None:
+                out.append(V('C09', 'evaluated_point_not_a_projection_output', c.site, 'evaluation %d (%s) is not the output of any recorded alternating-projection call' % (c.k, c.site)))
+                if len(out) >= 3:
+                    break
+                continue
+        stats['c09.points_checked'] = stats.get('c09.points_checked', 0) + 1
+        if np.any(np.isnan(x)):
+            out.append(V('C09', 'evaluated_point_nan', c.site, 'evaluation %d is NaN' % c.k))
+            continue
+        if (lo is not None and np.any(x < lo)) or (hi is not None and np.any(x > hi)):
+            out.append(V('C09', 'outside_bound_box', c.site, 'evaluation %d violates the bound box although the box is projected last' % c.k))
+        if d.sweeps < d.max_iter:
+            stats['c09.stopped_by_rule'] = stats.get('c09.stopped_by_rule', 0) + 1
+            bound = math.sqrt(d.p * d.tol)
+            worst = max(W.set_distance(s, x) for s in sets)
+            H.c09_maxratio = max(getattr(H, 'c09_maxratio', 0.0), worst / bound if bound > 0 else 0.0)
+            if worst > bound * (1 + 1e-9) + 8 * EPS * max(1.0, float(np.max(np.abs(x)))):
+                out.append(V('C09', 'outside_tolerance', c.site, 'evaluation %d is %.3e from a constraint set; sqrt(p*tol)=%.3e (p=%d, tol=%g, sweeps=%d)' % (c.k, worst, bound, d.p, d.tol, d.sweeps)))
+        else:
+            stats['c09.hit_sweep_cap'] = stats.get('c09.hit_sweep_cap', 0) + 1
+        if len(out) >= 3:
+            break
+    if has_solution(H):
+        x = np.asarray(H.soln.x, dtype=float)
+        if (lo is not None and np.any(x < lo)) or (hi is not None and np.any(x > hi)):
+            out.append(V('C09', 'solution_outside_bound_box', 'soln.x', 'returned x violates the bound box'))
+    return out
+
+
+# ---------------------------------------------------------------------------------------------------------------
+# C14 initial interpolation set (history prefix)
+# ---------------------------------------------------------------------------------------------------------------
+
+def check_C14(H):
+    out = []
+    feats = S.features(H.scn)
+    if any(f in feats for f in ('sets', 'random_init', 'growing', 'parallel_init')) or any(f.startswith('reg:') for f in feats):
+        return out
+    n, npt, rhobeg = H.eff['n'], H.eff['npt'], H.eff['rhobeg']
+    if npt > 2 * n + 1:
+        return out
+    pts = point_table(H)
+    if any(j not in pts for j in range(1, npt + 1)) or any(c.run != 0 for j in range(1, npt + 1) for c in pts[j]):
+        return out
+    lo, hi = caller_bounds(H)
+    x0 = np.array(H.scn['x0'], dtype=float)
+    proj = x0.copy()
+    if lo is not None:
+        proj = np.maximum(proj, lo)
+    if hi is not None:
+        proj = np.minimum(proj, hi)
+    X = np.array([pts[j][0].x for j in range(1, npt + 1)])
+    H.insitu_counts['c14.prefixes_checked'] = H.insitu_counts.get('c14.prefixes_checked', 0) + 1
+    scaling = H.eff['scaling']
+    if scaling:
+        ok = np.all(np.abs(X[0] - proj) <= 4 * EPS * np.maximum(np.abs(proj), np.maximum(np.abs(lo), np.abs(hi))))
+    else:
+        ok = X[0].tobytes() == proj.tobytes() or bool(np.all(X[0] == proj))
+    if not ok:
+        out.append(V('C14', 'first_point_not_projected_x0', 'x0', 'first evaluation differs from clip(x0, lower, upper) by %.3e' % float(np.max(np.abs(X[0] - proj)))))
+    if (lo is not None and np.any(X < lo)) or (hi is not None and np.any(X > hi)) or np.any(np.isnan(X)):
+        out.append(V('C14', 'initial_point_outside_bounds', 'initialise_coordinate_directions', 'an initial point violates the bounds'))
+        return out
+    if scaling:
+        Z = (X - lo) / (hi - lo)
+    else:
+        Z = X
+    dist = np.linalg.norm(Z[1:] - Z[0], axis=1)
+    slack = 1e-9 + (64 * EPS * max(1.0, float(np.max(np.abs(Z)))) / rhobeg)
+    if np.any(dist < 0.01 * rhobeg * (1 - slack)) or np.any(dist > 2.0 * rhobeg * (1 + slack)):
+        j = int(np.argmax(np.maximum(0.01 * rhobeg - dist, dist - 2.0 * rhobeg)))
+        out.append(V('C14', 'initial_point_distance', 'initialise_coordinate_directions', 'point %d is %.6g*rhobeg from x0 (allowed [0.01, 2])' % (j + 2, dist[j] / rhobeg)))
+    M = np.hstack([np.ones((npt, 1)), (Z - Z[0]) / rhobeg])
+    cond = float(np.linalg.cond(M))
+    H.c14_cond = max(getattr(H, 'c14_cond', 0.0), cond if np.isfinite(cond) else 1e300)
+    if not (cond < 1e4) or np.linalg.matrix_rank(M) < n + 1:
+        out.append(V('C14', 'initial_set_ill_poised', 'initialise_coordinate_directions', 'cond of the scaled interpolation matrix = %.3e (rank %d of %d)' % (cond, np.linalg.matrix_rank(M), n + 1)))
+    return out
+
+
+ORACLES['C09'] = check_C09
+ORACLES['C14'] = check_C14
